@@ -241,6 +241,14 @@ impl Prop for C16Prop {
                 kind: "good".into(),
             });
         }
+        // a second file whose path differs from the main file's only in letter case
+        if t.chance(1, 4) {
+            let p0 = files[0].path.clone();
+            let (dir, name) = p0.rsplit_once('/').unwrap_or(("", &p0));
+            let (stem, ext) = name.rsplit_once('.').unwrap_or((name, "pas"));
+            let flipped: String = stem.chars().map(|c| if c.is_ascii_lowercase() { c.to_ascii_uppercase() } else { c.to_ascii_lowercase() }).collect();
+            files.push(FileSpec { path: format!("{dir}/{flipped}.{ext}"), text: "q   :=   7 ;\n".into(), bom: false, kind: "good".into() });
+        }
         if t.chance(1, 3) {
             let name = if t.chance(1, 2) { "src/bad.pas" } else { "src/badbig.pas" };
             files.push(FileSpec { path: name.into(), text: "x   :=   1;\n".into(), bom: false, kind: "badutf8".into() });
